@@ -76,7 +76,7 @@ def run_case(ctx, kind_, idx):
     rng = ctx.rng(kind_, idx)
     cid = ctx.case_id(kind_, idx)
     x, y, meta = R.gen_series(rng, 2, 40, ties_share=0.2, long_share=R.LONG_SHARE, real_valued=kind_ == "huge",
-                              force_m=int(rng.integers(66000, 90001)) if kind_ == "huge" else None)
+                              force_m=gen.huge_size(rng) if kind_ == "huge" else None)
     if len(x) > 2 and abs((x[1] - x[0]) - (x[-1] - x[-2])) < 1e-12 and rng.integers(0, 4):
         x = x.copy()
         x[-1] = x[-1] + (x[-1] - x[-2]) * float(rng.choice([0.5, 1.0, 2.5]))   # make last step != first step
